@@ -48,6 +48,10 @@ func VerifC06Fn4() { c06Fn(4, 1, 1) }
 // two ranges, two extra characters, inputs up to 2 bytes
 func VerifC06FnWide() { c06Fn(verifrt.Choose("len", 3), 2, 2) }
 
+// two (possibly overlapping, nested, empty or single-rune) ranges, no extra characters, inputs
+// of 1..2 bytes: configurations in which one range lies inside or across the other
+func VerifC06TwoRanges() { c06Fn(1+verifrt.Choose("len", 2), 2, 0) }
+
 func c06Fn(n, nr, nc int) {
 	vc := c06Chars(nr, nc)
 	rep := verifrt.Rune("replacement")
@@ -140,4 +144,61 @@ func VerifC06Concurrent() {
 	verifrt.Assert("c06.concurrent.second-result", out[1] == "d____")
 	verifrt.Assert("c06.concurrent.deterministic-afterwards", fn("q!68") == "q___")
 	verifrt.Reach("c06.concurrent.end")
+}
+
+// VerifC06CallerKeepsItsMap: the tag map given to Tagged stays the caller's.  The caller goes
+// on writing to it (a new, invalid key and an invalid value for the old key) after the scope
+// was derived; whatever is delivered for that scope afterwards still consists of the
+// sanitized form of the tags as they were at the Tagged call - with or without root tags,
+// for a key/value byte that is valid already or not.
+func VerifC06CallerKeepsItsMap() {
+	rec := &vReporter{}
+	opts := ScopeOptions{Reporter: rec, OmitCardinalityMetrics: true, registryShardCount: 1,
+		SanitizeOptions: &SanitizeOptions{
+			NameCharacters:       ValidCharacters{Ranges: []SanitizeRange{{'a', 'z'}}},
+			KeyCharacters:        ValidCharacters{Ranges: []SanitizeRange{{'a', 'z'}}},
+			ValueCharacters:      ValidCharacters{Ranges: []SanitizeRange{{'a', 'z'}}},
+			ReplacementCharacter: '_',
+		}}
+	rooted := verifrt.Choose("root.tagged", 2) == 1
+	if rooted {
+		opts.Tags = map[string]string{"r": "t"}
+	}
+	root := newRootScope(opts, 0)
+	k, v := verifrt.String("key", 1), verifrt.String("val", 1)
+	verifrt.Assume(k != "r")
+	wantK, wantV := root.sanitizer.Key(k), root.sanitizer.Value(v)
+	tags := map[string]string{k: v}
+	s := root.Tagged(tags)
+	s.Counter("c").Inc(1)
+	root.reportRegistry()
+	// the caller's map is the caller's: it is reused for something else
+	tags["b/d"] = "x y"
+	tags[k] = "Z!"
+	s.Counter("c").Inc(1)
+	s.Gauge("g").Update(1)
+	root.reportRegistry()
+	verifrt.Assert("c06.caller-map.caller-sees-its-own-writes", len(tags) == 2 && tags[k] == "Z!")
+	n := 0
+	for _, c := range rec.calls {
+		n++
+		want := 1
+		if rooted {
+			want = 2
+			verifrt.Assert("c06.caller-map.root-tag-delivered", c.tags["r"] == "t")
+		}
+		verifrt.Assert("c06.caller-map.tag-count-as-derived", len(c.tags) == want)
+		got, ok := c.tags[wantK]
+		verifrt.Assert("c06.caller-map.tags-as-sanitized-at-the-tagged-call", ok && got == wantV)
+		for tk, tv := range c.tags {
+			for i := 0; i < len(tk); i++ {
+				verifrt.Assert("c06.caller-map.delivered-key-allowed", verifrt.Or(verifrt.And(tk[i] >= 'a', tk[i] <= 'z'), tk[i] == '_'))
+			}
+			for i := 0; i < len(tv); i++ {
+				verifrt.Assert("c06.caller-map.delivered-value-allowed", verifrt.Or(verifrt.And(tv[i] >= 'a', tv[i] <= 'z'), tv[i] == '_'))
+			}
+		}
+	}
+	verifrt.Assert("c06.caller-map.three-deliveries", n == 3)
+	verifrt.Reach("c06.caller-map.end")
 }
